@@ -244,8 +244,8 @@ def check_stop(ctx, prog):
     sleeps = [n for n in scfg.nodes if n.kind == 'ev' and n.e is not None and n.e.get('k') == 'call' and (n.e.get('fn') or n.e.get('pq') or '').split('::')[-1] in ('sleep', 'usleep')]
     if not req:
         ctx.violation('C14.stop', s['pq'], role, fwhere(s), 'stop() does not set the stop request')
-    elif len(sleeps) != 1:
-        ctx.undecided('C14.stop', s['pq'], role, fwhere(s), 'no single polling sleep found in stop()')
+    elif not sleeps:
+        ctx.undecided('C14.stop', s['pq'], role, fwhere(s), 'no polling sleep found in stop()')
     else:
         import bounded
         sync = s['params'][0]['id'] if s.get('params') else None
@@ -263,28 +263,24 @@ def check_stop(ctx, prog):
                         return clients          # conversion to int
                 return None
             ev = bounded.Bound(prog, s, {sync: 1} if sync is not None else {}, {}, bind=bind)
-            seen = set()
-            work = [sleeps[0]]
-            first = True
-            while work:
-                n = work.pop()
-                if n is scfg.exit:
-                    return True
-                if n.id in seen:
-                    continue
-                seen.add(n.id)
-                if n is sleeps[0] and not first:
-                    continue
-                first = False
-                want = None
-                if n.kind == 'br':
-                    want = ev.ev3(n.e)
-                for m, lab in n.succ:
-                    if want is not None and lab is not None and lab != want:
+            # from every polling sleep: can the exit be reached without sleeping again?
+            for start in sleeps:
+                seen = set()
+                work = [m for m, _ in start.succ]
+                while work:
+                    n = work.pop()
+                    if n is scfg.exit:
+                        return True
+                    if n.id in seen or n in sleeps:
                         continue
-                    if m is sleeps[0]:
-                        continue
-                    work.append(m)
+                    seen.add(n.id)
+                    want = None
+                    if n.kind == 'br':
+                        want = ev.ev3(n.e)
+                    for m, lab in n.succ:
+                        if want is not None and lab is not None and lab != want:
+                            continue
+                        work.append(m)
             return False
         res = dict(((r, c), can_return(r, c)) for r in (0, 1) for c in (0, 1, 3))
         ctx.evaluations += 6
